@@ -599,6 +599,12 @@ var v6ShrexAnswers = []string{
 	// last byte, and - for responses of several length-delimited messages - exactly the first message.
 	"pr:1", "pr:half", "pr:last", "pr:msg",
 	"ph:1", "ph:half", "ph:last", "ph:msg",
+	// "the complete response arrives exactly as the caller's context ends": the answer <x> is delivered in full
+	// and the caller's context is cancelled synchronously as the client consumes its last byte, so the request
+	// returns to the getter without error and with the context done. Last in a sequence by construction.
+	"atend:honest", "atend:other:0", "atend:other:1", "atend:other:2", "atend:othersq", "atend:longsq",
+	"atend:trunc", "atend:truncmsg", "atend:ext", "atend:gshare", "atend:gproof", "atend:graw",
+	"atend:garbage", "atend:empty",
 	"nf",        // NOT_FOUND (written by the real server for a height it does not hold)
 	"internal",  // INTERNAL (written by the real server whose store fails)
 	"invalid",   // status INVALID
@@ -760,11 +766,38 @@ func (s *v6Square) answersFor(key string, allowDial bool) []string {
 			}
 			continue
 		}
+		if inner, atEnd := v6AtEndOf(a); atEnd {
+			if _, ok := s.tab[key][inner]; ok {
+				out = append(out, a)
+			}
+			continue
+		}
 		if _, ok := s.tab[key][a]; ok {
 			out = append(out, a)
 		}
 	}
 	return out
+}
+
+// v6AtEndOf: "atend:<answer>" -> answer.
+func v6AtEndOf(a string) (string, bool) {
+	if strings.HasPrefix(a, "atend:") {
+		return a[len("atend:"):], true
+	}
+	return "", false
+}
+
+// v6ConsumedBy: how many bytes of a response the client takes before its request returns: sample and row
+// readers take the status and one message; the others read to EOF (0 = "until EOF").
+func v6ConsumedBy(key string, resp []byte) int {
+	if !strings.HasPrefix(key, "sample:") && !strings.HasPrefix(key, "row:") {
+		return len(resp) + 1 // never reached: the cancellation fires when EOF is handed over
+	}
+	fr, _ := v6Frames(resp)
+	if len(fr) >= 2 {
+		return len(fr[0]) + len(fr[1])
+	}
+	return len(resp) + 1
 }
 
 // v6PartialOf: "pr:<k>" / "ph:<k>" -> k.
